@@ -39,6 +39,7 @@ type adversary struct {
 	minRound     int
 	follow       map[string]bool // payload hashes (block hash) the adversary pushes through all phases
 	sent         map[string]bool // crafted leader messages already sent (phase|payload|view)
+	partial      map[uint64]bool // heights at which a COMMIT was withheld from some correct replica
 	commitTarget map[uint64]int  // height -> the only correct replica allowed to receive COMMIT messages
 	withheld     []*voteAgg      // full PROPOSE_VOTE certificates whose PRECOMMIT was withheld
 	w            *world
@@ -707,6 +708,12 @@ func (a *adversary) blockedByPlan(from, to int, m *bft.Message) bool {
 		w.c.Fault("round0_proposal_lost")
 		return true
 	}
+	if a.plan == planLockBreak && m.Header.Phase == lib.Phase_PROPOSE && !w.nodes[from].byz && a.partial[m.Header.Height] && w.c.T.Chance(9, 10) {
+		// after a strict subset has committed this height, proposals of correct leaders keep getting lost
+		// (asynchrony): the locked replicas wait until a Byzantine leader shows up with its bait
+		w.c.Fault("proposal_lost_after_partial_commit")
+		return true
+	}
 	if m.Header.Phase != lib.Phase_COMMIT {
 		return false
 	}
@@ -718,12 +725,20 @@ func (a *adversary) blockedByPlan(from, to int, m *bft.Message) bool {
 	if !ok {
 		hs := w.honest()
 		tgt = hs[w.c.T.Intn(len(hs))].idx
+		if !w.nodes[from].byz && w.c.T.Chance(2, 3) {
+			// nobody but the leader itself receives its COMMIT: one correct replica commits, all others stay locked
+			tgt = from
+		}
 		a.commitTarget[h] = tgt
 	}
 	if to == tgt {
 		return false
 	}
 	w.c.Fault("commit_message_withheld_from_replica")
+	if a.partial == nil {
+		a.partial = map[uint64]bool{}
+	}
+	a.partial[h] = true
 	return true
 }
 
